@@ -83,10 +83,11 @@ LiveEnt(db, now, k) == IF k \in DOMAIN db /\ IsLive(db[k], now) THEN db[k] ELSE 
 Recreating == {"SET", "SETNX", "SETEX", "PSETEX", "GETSET", "MSET", "MSETNX", "APPEND", "SETRANGE", "INCR", "DECR", "INCRBY",
                "DECRBY", "INCRBYFLOAT", "SINTERSTORE", "SUNIONSTORE", "SDIFFSTORE", "RENAME", "RENAMENX", "COPY",
                "SETBIT", "BITOP", "BITFIELD"}
-Flag(S1, S2, nm) ==
+\* tw: the <<database, key>> pairs the command rewrote even if with the same content (see Rewrites below)
+FlagW(S1, S2, nm, tw) ==
     [S2 EXCEPT
        !.conn = [c \in DOMAIN S2.conn |->
-          IF \E w \in S2.conn[c].watch : LiveEnt(S1.dbs[w[1]], S1.now, w[2]) # LiveEnt(S2.dbs[w[1]], S2.now, w[2])
+          IF \E w \in S2.conn[c].watch : w \in tw \/ LiveEnt(S1.dbs[w[1]], S1.now, w[2]) # LiveEnt(S2.dbs[w[1]], S2.now, w[2])
           THEN [S2.conn[c] EXCEPT !.cas = TRUE] ELSE S2.conn[c]],
        \* (a flush gives the emulator a new database object; watches still refer to the old, untouched one)
        !.oid = IF Real /\ nm \in {"FLUSHDB", "FLUSHALL"} THEN S1.oid ELSE
@@ -94,9 +95,45 @@ Flag(S1, S2, nm) ==
                   [k \in DOMAIN S2.dbs[i] \cup (DOMAIN S1.oid[i] \ DOMAIN S1.dbs[i]) |->
                    IF k \notin DOMAIN S2.dbs[i] THEN S1.oid[i][k]              \* object of a flushed database (see above)
                    ELSE IF k \notin DOMAIN S1.dbs[i] \/ k \notin DOMAIN S1.oid[i] THEN S1.nid + 1
-                   ELSE IF S1.dbs[i][k] # S2.dbs[i][k] /\ nm \in Recreating THEN S1.nid + 1
+                   ELSE IF (S1.dbs[i][k] # S2.dbs[i][k] \/ <<i, k>> \in tw) /\ nm \in Recreating THEN S1.nid + 1
+                   \* rotating a one-element list onto itself: the pop removes the key, the push creates it again
+                   ELSE IF nm \in {"LMOVE", "RPOPLPUSH", "BLMOVE", "BRPOPLPUSH"} /\ <<i, k>> \in tw /\ S1.dbs[i][k].ty = "list"
+                           /\ Len(S1.dbs[i][k].l) = 1 /\ S2.dbs[i][k].ty = "list" /\ Len(S2.dbs[i][k].l) = 1 THEN S1.nid + 1
                    ELSE S1.oid[i][k]]],
        !.nid = S1.nid + 1]
+Flag(S1, S2, nm) == FlagW(S1, S2, nm, {})
+
+(* WATCH counts a key as modified when a command WRITES it, whether or not the content changes (Redis:
+   signalModifiedKey): SET to the same value, APPEND of nothing, HSET of the same value, RENAME back onto the
+   old name, LMOVE k k of a one-element list, a BITFIELD write of the value that was there.  Rewrites is the
+   set of keys a successful command writes in that sense, beyond what the comparison of the states shows. *)
+RECURSIVE BfWrites(_, _, _)
+\* positions (in the reply array) of the write sub-operations of BITFIELD that were not refused
+BfWrites(a, j, pos) ==
+    IF j > Len(a) THEN {}
+    ELSE IF Is(a[j], "OVERFLOW") THEN BfWrites(a, j + 2, pos)
+    ELSE IF Is(a[j], "GET") THEN BfWrites(a, j + 3, pos + 1)
+    ELSE IF Is(a[j], "SET") \/ Is(a[j], "INCRBY") THEN {pos} \cup BfWrites(a, j + 4, pos + 1)
+    ELSE {}
+Rewrites(S, S2, c, cmd, r) ==
+    LET nm == CmdName(cmd)
+        a == Tail(cmd)
+        i == S.conn[c].db
+        d == Live(DbOf(S, c), S.now)
+        K(ks) == {<<i, k>> : k \in {q \in ks : q \in DOMAIN S2.dbs[i]}}
+        opt(o) == \E j \in 3..Len(a) : Is(a[j], o)
+    IN  IF r.t = "err" \/ Len(a) = 0 \/ S.conn[c].o # 0 THEN {}
+        ELSE CASE nm = "SET" /\ Len(a) >= 2 -> IF (opt("NX") /\ Has(d, a[1])) \/ (opt("XX") /\ ~Has(d, a[1])) THEN {} ELSE K({a[1]})
+               [] nm \in {"SETEX", "PSETEX", "GETSET", "APPEND", "INCR", "DECR", "INCRBY", "DECRBY", "INCRBYFLOAT",
+                          "HSET", "HMSET", "HINCRBY", "HINCRBYFLOAT", "LSET"} -> K({a[1]})
+               [] nm = "SETRANGE" /\ Len(a) = 3 -> IF a[3] = <<>> THEN {} ELSE K({a[1]})
+               [] nm = "MSET" -> K({a[j] : j \in {m \in 1..Len(a) : m % 2 = 1}})
+               [] nm = "RENAME" /\ Len(a) = 2 -> K({a[1], a[2]})
+               [] nm = "COPY" /\ Len(a) >= 2 -> IF r = RInt(1) THEN K({a[2]}) ELSE {}
+               [] nm \in {"LMOVE", "RPOPLPUSH"} /\ Len(a) >= 2 -> IF r.t = "bulk" THEN K({a[1], a[2]}) ELSE {}
+               [] nm \in {"SINTERSTORE", "SUNIONSTORE", "SDIFFSTORE"} -> K({a[1]})
+               [] nm = "BITFIELD" -> IF r.t = "arr" /\ \E p \in BfWrites(a, 2, 1) : p <= Len(r.a) /\ r.a[p].t # "nil" THEN K({a[1]}) ELSE {}
+               [] OTHER -> {}
 
 \* a data command of connection c on its selected database
 DataCmd(S, c, cmd) ==
@@ -204,7 +241,7 @@ RECURSIVE RunQueue(_, _, _, _)
 RunQueue(S, c, q, acc) ==
     IF q = <<>> THEN acc
     ELSE LET res == Run(S, c, Head(q))
-             S2 == Flag(S, res.S, CmdName(Head(q)))
+             S2 == FlagW(S, res.S, CmdName(Head(q)), Rewrites(S, res.S, c, Head(q), res.r))
          IN  RunQueue(S2, c, Tail(q), [S |-> S2, rs |-> Append(acc.rs, res.r), dv |-> acc.dv \cup res.dv,
                                        rel |-> acc.rel \cup res.rel, tol |-> acc.tol \cup res.tol])
 
@@ -266,7 +303,7 @@ Apply(S, c, cmd) ==
                     ELSE IF On("D_MULTI_REJECTS_UNPARSABLE_ARGS_AT_QUEUE_TIME") /\ IsParseErr(Run(S, c, cmd).r)
                          THEN SDev(S, RErr("ERR"), "D_MULTI_REJECTS_UNPARSABLE_ARGS_AT_QUEUE_TIME")
                     ELSE SOk([S EXCEPT !.conn[c].queue = Append(@, cmd)], RSimple("QUEUED"))
-    IN  [res EXCEPT !.S = Flag(S, res.S, nm)]
+    IN  [res EXCEPT !.S = FlagW(S, res.S, nm, IF ss.multi = "off" THEN Rewrites(S, res.S, c, cmd, res.r) ELSE {})]
 
 LiveDbs0(S) == [d \in DbIds |-> Live(S.dbs[d], S.now)]
 
